@@ -193,7 +193,7 @@ def run_async(ch, events, nested, pre_activate):
 
 # -- thread half --------------------------------------------------------------------------------
 
-def run_threads(ch, events, nested, files):
+def run_threads(ch, events, nested, files, only_lines=None, stateful=False):
     built = machine(False)
     with tsched.patched_lock():
         impl = Impl(built, Cfg("sync", True, False, "direct"),
@@ -206,14 +206,29 @@ def run_threads(ch, events, nested, files):
         tags = [[f"S{i}.{k}" for k in range(len(evs))] for i, evs in enumerate(events)]
         sm = impl.sm
 
+        progress = [0] * len(events)
+
         def body(i):
             def fn():
                 for k, ev in enumerate(events[i]):
+                    progress[i] = k
                     sm.send(ev, tag=tags[i][k])
+                progress[i] = len(events[i])
             return fn
+
+        def state_fn():
+            eng = sm._engine
+            pr = eng._processing
+            return (tuple(progress),
+                    tuple(td.kwargs.get("tag") for td in eng._external_queue),
+                    pr.locked() if hasattr(pr, "locked") else bool(pr),
+                    repr(sm.current_state_value),
+                    tuple((r.tag, r.cid[1], r.ended) for r in env.flat),
+                    tuple(sorted(env.fired.items())))
         CUR.env = env
         try:
-            s = tsched.Sched(ch, files)
+            s = tsched.Sched(ch, files, only_lines=only_lines,
+                             state_fn=state_fn if stateful else None)
             s.run([body(i) for i in range(len(events))])
         finally:
             CUR.env = None
@@ -222,6 +237,55 @@ def run_threads(ch, events, nested, files):
 
 
 # -- exploration drivers ------------------------------------------------------------------------
+
+def explore_stateful(res, vi, variant, tier, coarse):
+    """Explicit-state exploration of the thread half with NO preemption bound: the canonical
+    global state (running thread, every thread's frames inside the dispatch code with their
+    simple locals, queue contents, lock, stored state, records so far) is hashed at every
+    scheduling point and a state reached before is not expanded again."""
+    from ..cli_env import repo_dir
+    events, nested = variant
+    files = tsched.traced_files(repo_dir(), thorough=False)
+    only = tsched.shared_access_lines(files) if coarse else None
+    st = {"msg": None, "choices": None, "orders": set()}
+
+    def fn(ch):
+        return run_threads(ch, events, nested, files, only, stateful=True)[:2]
+
+    def run_fn(ch):
+        msg, order = fn(ch)
+        if order:
+            st["orders"].add(order)
+        if msg and st["msg"] is None:
+            ch2 = Chooser(ch.choices, ch.batch)
+            msg2, _ = fn(ch2)
+            st["msg"] = msg if (msg2 and ch2.choices == ch.choices) else \
+                f"NONDETERMINISTIC-REPLAY first: {msg} second: {msg2}"
+            st["choices"] = ch.choices
+    cap = 40000 if tier == "quick" else 400000
+    try:
+        stt = explore(run_fn, bound=None, seen={}, max_execs=cap)
+    except ReplayDivergence as e:
+        res.violation({"category": "replay-divergence", "half": "threads-stateful"},
+                      {"half": "threads-stateful", "variant": vi}, f"harness: {e}")
+        return
+    label = f"threads-stateful-{'coarse' if coarse else 'line'}:v{vi}"
+    res.stats["schedules"] += stt["executions"]
+    res.stats["states"] += stt["states"] or 0
+    res.stats["transitions"] += stt["executions"] * sum(map(len, events))
+    res.stats["stateful_states"] += stt["states"] or 0
+    res.hist[label + ":executions"] += stt["executions"]
+    res.hist[label + ":distinct_states"] += stt["states"] or 0
+    res.hist[label + ":distinct_orders"] += len(st["orders"])
+    if stt["capped"]:
+        res.stats["capped_scenarios"] += 1
+        res.hist[label + ":CAPPED"] += 1
+    if st["msg"]:
+        res.violation({"category": _cat(st["msg"]), "half": "threads-stateful"},
+                      {"half": "threads", "variant": vi, "events": [list(e) for e in events],
+                       "nested": nested, "pre_activate": None, "choices": st["choices"],
+                       "tier": tier, "coarse": coarse}, st["msg"])
+
 
 def explore_variant(res, half, vi, variant, tier, roots=None, root_run=True):
     events, nested = variant
@@ -294,6 +358,15 @@ def worker(block):
     res = BlockResult()
     if half == "async":
         install_virtual_loop()
+    if half.startswith("stateful"):
+        variant = variants(tier, "threads")[vi]
+        try:
+            with deadline(7000):
+                explore_stateful(res, vi, variant, tier, coarse=(half == "stateful-coarse"))
+        except Hang:
+            res.violation({"category": "hang", "half": half}, {"half": half, "variant": vi},
+                          "stateful exploration exceeded its time budget")
+        return res
     variant = variants(tier, half)[vi]
     try:
         with deadline(3000):
@@ -327,6 +400,13 @@ def run(tier, seed):
             blocks.append(("threads", tier, vi, roots[i:i + chunk]))
     # the [[]] root explores the whole tree; replace it by a root-only run
     blocks = [b for b in blocks if not (b[0] == "threads" and b[3] == [[]])]
+    # explicit-state, unbounded preemptions
+    for vi, (events, nested) in enumerate(variants(tier, "threads")):
+        n, total_sends = len(events), sum(map(len, events))
+        if n == 2 and (tier == "thorough" or (total_sends == 2 and not nested)):
+            blocks.append(("stateful-line", tier, vi, None))
+        if n == 2 or (n == 3 and tier == "thorough"):
+            blocks.append(("stateful-coarse", tier, vi, None))
     total, capped = run_blocks(worker, blocks, seed=seed)
     rep.add_violations(total.violations, total.hist_sig)
     rep.harness_errors = total.stats.get("harness_errors", 0)
@@ -344,6 +424,10 @@ def run(tier, seed):
         "distinct_processing_orders_observed_per_variant(max over workers)": orders,
         "variants": {"async": [[list(map(list, e)), n] for e, n in variants(tier, "async")],
                      "threads": [[list(map(list, e)), n] for e, n in variants(tier, "threads")]},
+        "explicit_state": "thread half additionally explored with NO preemption bound and state "
+                          "hashing: line granularity for two single-send senders (thorough: every "
+                          "2-sender variant), shared-access granularity (queue/lock lines) for every "
+                          "2-sender variant (thorough: 3 senders too); see schedules_by_harness",
         "bounds": "asyncio: exhausted for 2 senders with <=3 sends, else deviation bound 2 (quick) / 3 "
                   "(thorough), 4 senders bound 1/2; threads (quick): preemption bound 2 for two "
                   "single-send senders, 1 for every other variant; threads (thorough): 3 for two "
@@ -356,7 +440,10 @@ def run(tier, seed):
     }
     rep.assumptions = ["scheduling granularity: source line / await point under the GIL",
                        "scheduler-aware lock replaces threading.Lock inside the engines"]
-    return rep.finish(exhaustive=not capped)
+    caps = None
+    if total.stats.get("capped_scenarios"):
+        caps = {"stateful_explorations_that_hit_their_execution_cap": total.stats["capped_scenarios"]}
+    return rep.finish(exhaustive=not capped and not caps, caps=caps)
 
 
 def replay(sc):
@@ -368,6 +455,11 @@ def replay(sc):
         msg, _ = run_async(ch, events, sc["nested"], sc["pre_activate"])
     else:
         from ..cli_env import repo_dir
-        files = tsched.traced_files(repo_dir(), thorough=(tier == "thorough"))
-        msg, _, _ = run_threads(ch, events, sc["nested"], files)
+        if "coarse" in sc:
+            files = tsched.traced_files(repo_dir(), thorough=False)
+            only = tsched.shared_access_lines(files) if sc["coarse"] else None
+            msg, _, _ = run_threads(ch, events, sc["nested"], files, only, stateful=True)
+        else:
+            files = tsched.traced_files(repo_dir(), thorough=(tier == "thorough"))
+            msg, _, _ = run_threads(ch, events, sc["nested"], files)
     return msg
